@@ -1,44 +1,45 @@
 #!/bin/bash
-# confirm_mutant.sh <ID> [<suffix>] : confirm a seeded change in its scratch worktree /tmp/wt/<ID><suffix>:
-#  (1) with the patch, the existing suite passes (70 tests; 2 root-only failures tolerated)
+# confirm_mutant.sh <ID> : confirm a seeded change in a FRESH scratch worktree of /repo:
+#  (1) patch.diff applies to the clean tree; with it the existing suite passes (70 tests; the 2
+#      root-only failures of the baseline tolerated)
 #  (2) the demonstration fails with the patch and (3) passes without it.
-# then store it under /verif/seeded/<ID><suffix>/.
-id=$1; sfx=$2; wt=/tmp/wt/$id$sfx; out=/tmp/wt/out/$id$sfx; log=/tmp/wt/confirm-$id$sfx.log
-cd $wt || exit 2
-demo_filter=$(python3 - <<PY
-import re,os
-id="$id".lower()
-if os.path.exists("$wt/tests/%s_demo.rs"%id): print("--test %s_demo"%id)
-else: print("--lib %s_demo"%id)
-PY
-)
-echo "== with patch: full suite" > $log
-cargo test --offline 2>&1 | grep -E "^test |test result" > $log.full
+# Demo files are taken from the authoring worktree /tmp/wt/<ID> (untracked files + its diff of
+# src/tests/mod.rs).  On success the change is stored under /verif/seeded/<ID>/.
+id=$1; src=/tmp/wt/$id; out=/tmp/wt/out/$id; wt=/tmp/wt/cf-$id; log=/tmp/wt/confirm-$id.log
+rm -rf $wt; git -C /repo worktree prune; git -C /repo worktree add -q --detach $wt HEAD || exit 2
+cp /repo/Cargo.lock $wt/; cp -r /repo/target $wt/target
+cd $wt
+git apply $out/patch.diff || { echo "patch does not apply to clean tree" > $log; echo "NOT CONFIRMED" >> $log; exit 1; }
+# install the demo
+(cd $src && git status --porcelain | grep '^??' | awk '{print $2}' | grep -vE '^(target|Cargo.lock)' ) | while read f; do mkdir -p $(dirname $wt/$f); cp -r $src/$f $wt/$f; done
+(cd $src && git diff -- src/tests/mod.rs) > $wt/.hook.diff; [ -s $wt/.hook.diff ] && git apply $wt/.hook.diff
+demos=$(cd $wt && git status --porcelain | grep '^??' | awk '{print $2}' | grep -E '\.rs$' | tr '\n' ' ')
+filters=""
+for f in $demos; do b=$(basename $f .rs); case $f in tests/*) filters="$filters --test $b";; src/*) filters="$filters --lib $b";; esac; done
+echo "demo files: $demos ; filters: $filters" > $log
+cargo test --offline --lib 2>&1 | grep -E "^test |test result" > $log.full
 npass=$(grep -E "test result" $log.full | sed -E 's/.* ([0-9]+) passed.*/\1/' | sort -n | tail -1)
-ndemo=$(grep -E "^test .*_demo.* (ok|FAILED)$" $log.full | wc -l)
-npass=$((npass + 0))
-# in-crate demos run inside the lib test binary: they are the only additional failures allowed
-badfail=$(grep -E "^test .* FAILED$" $log.full | grep -v "_demo" | grep -vE "test_io_error_on_staging_file_creation|append_op_fails_when_segment_rollover_cannot_create_file" | wc -l)
+demo_in_lib=$(grep -E "^test .*(_demo|demo_).* ok$" $log.full | wc -l)
+badfail=$(grep -E "^test .* FAILED$" $log.full | grep -vE "_demo|demo_|c[0-9][0-9]_" | grep -vE "test_io_error_on_staging_file_creation|append_op_fails_when_segment_rollover_cannot_create_file" | wc -l)
+npass=$((npass - demo_in_lib))
 echo "existing tests passed=$npass unexpected_failures=$badfail" >> $log
-echo "== with patch: demo" >> $log
-cargo test --offline $demo_filter 2>&1 | grep -E "test result" >> $log
-with=$(cargo test --offline $demo_filter 2>&1 | grep -cE "test result: FAILED")
-git apply -R $out/patch.diff || { echo "cannot reverse patch" >> $log; exit 2; }
-echo "== without patch: demo" >> $log
-without=$(cargo test --offline $demo_filter 2>&1 | grep -E "test result" | tee -a $log | grep -cE "test result: FAILED")
-git apply $out/patch.diff
+run_demo() { r=0; for f in $demos; do b=$(basename $f .rs); case $f in tests/*) cargo test --offline --test $b 2>&1 | grep -q "test result: FAILED" && r=1;; src/*) cargo test --offline --lib $b 2>&1 | grep -q "test result: FAILED" && r=1;; esac; done; return $r; }
+run_demo; with=$?
+git apply -R $out/patch.diff
+run_demo; without=$?
 echo "demo_fails_with_patch=$with demo_fails_without_patch=$without" >> $log
-if [ "$npass" -ge 70 ] && [ "$badfail" -eq 0 ] && [ "$with" -ge 1 ] && [ "$without" -eq 0 ]; then
+if [ "$npass" -ge 70 ] && [ "$badfail" -eq 0 ] && [ "$with" -eq 1 ] && [ "$without" -eq 0 ]; then
   echo "CONFIRMED" >> $log
-  mkdir -p /verif/seeded/$id$sfx && cp $out/patch.diff /verif/seeded/$id$sfx/ && cp $out/demo* /verif/seeded/$id$sfx/ 2>/dev/null
+  mkdir -p /verif/seeded/$id && cp $out/patch.diff /verif/seeded/$id/ && for f in $demos; do cp $wt/$f /verif/seeded/$id/; done; [ -s $wt/.hook.diff ] && cp $wt/.hook.diff /verif/seeded/$id/demo_hook.diff
   python3 - <<PY
 import json
 m=json.load(open("$out/meta.json"))
-m["confirmed_by"]="tools/confirm_mutant.sh: existing tests passed=$npass (unexpected failures=$badfail); demo fails with patch ($with failing test binaries), passes without"
 m["property"]="$id"
-json.dump(m,open("/verif/seeded/$id$sfx/meta.json","w"),indent=1)
+m["confirmed"]="tools/confirm_mutant.sh in a fresh worktree: patch applies to clean HEAD; existing tests passed=$npass, unexpected failures=$badfail; demo ($demos) fails with the patch and passes without it"
+json.dump(m,open("/verif/seeded/$id/meta.json","w"),indent=1)
 PY
 else
   echo "NOT CONFIRMED" >> $log
 fi
+cd /; git -C /repo worktree remove --force $wt
 tail -3 $log
